@@ -16,6 +16,9 @@ static Outcome runOnce(const KV& c)
     ProblemSpec p     = ProblemSpec::get(c);
     const int threads = (int)c.getI("threads");
     const int nrhs    = (int)c.getI("nrhs");
+    const int fscale  = (int)c.getI("f_scale_exp", 0);
+    if (fscale != 0)
+        o.cls(fscale < 0 ? "rhs_scaled_tiny" : "rhs_scaled_huge");
     const int fkind   = (int)c.getI("f_kind");
     const uint64_t fseed = c.getU("f_seed");
     Hierarchy H;
@@ -70,6 +73,11 @@ static Outcome runOnce(const KV& c)
 
     for (int k = 0; k < nrhs; k++) {
         Vector<double> f = makeVector(g, fkind, fseed + 17 * k);
+        // "for any right-hand side": the whole vector may also be tiny or huge (exact scaling by a power of two; the solve
+        // is linear, all bounds below are relative to the data)
+        if (fscale != 0)
+            for (int i = 0; i < n; i++)
+                f[i] = std::ldexp(f[i], fscale);
         Vector<double> xg = f, xt = f;
         give.solveInPlace(xg);
         take.solveInPlace(xt);
@@ -157,6 +165,7 @@ static KV genCase()
     c.putI("cache_coef", rbool());
     c.putI("cache_geom", rbool());
     c.putI("nrhs", rint(1, 3));
+    c.putI("f_scale_exp", rpick({0, 0, 0, 0, 0, 0, -600, -300, 300, 600}));
     c.putI("f_kind", rweighted({4, 3, 2, 2, 3, 1}));
     c.putU("f_seed", rseed());
     return c;
